@@ -49,6 +49,9 @@ def outcome(text, tmp, io):
     from mpilot.exceptions import MPilotError
     from mpilot.program import Program
 
+    from ..history import maybe_earlier_v2_load
+
+    maybe_earlier_v2_load(text)
     try:
         p = Program.from_source(text, libraries=c12.libraries(io), working_dir=tmp)
     except SyntaxError as exc:
@@ -207,7 +210,7 @@ def check_v2(case, rec):
 
 # ------------------------------------------------------------------------------------ (b) corruptions
 
-CHARS = list("()[]=,:#\"'\\ \n\t") + ["9" * 4301, "1." + "0" * 5000, "-" + "7" * 5000 + " ", "a", "1", ".", "-", "+", "é", "\r\n", "True", "[a, b:c]", "[x:y, z]", "=[", "](", '"\\"', "'\\x'"]
+CHARS = list("()[]=,:#\"'\\ \n\t") + ['"\\n\\n\\n\\n\\n\\n\\n\\n\\n\\n"', 'X = "\\n\\n\\n\\n\\n\\n", ', "9" * 4301, "1." + "0" * 5000, "-" + "7" * 5000 + " ", "a", "1", ".", "-", "+", "é", "\r\n", "True", "[a, b:c]", "[x:y, z]", "=[", "](", '"\\"', "'\\x'"]
 
 
 @st.composite
